@@ -106,6 +106,7 @@ type stepResult struct {
 	FaultRuns   int            `json:"fault_runs,omitempty"`
 	FaultFailed int            `json:"fault_failed,omitempty"` // runs in which the op returned an error
 	FaultSites  map[string]int `json:"fault_sites,omitempty"`
+	FaultLeaks  int            `json:"fault_leaks,omitempty"` // runs after which goroutines of the operation stayed blocked for ever
 }
 
 var vidRe = regexp.MustCompile(`"v(\d+)"`)
@@ -312,8 +313,38 @@ func runFaults(t *testing.T, spec *Spec, j job, res *stepResult) {
 	n := 1 // discovered from the record run
 	for k := 0; k <= n; k++ {
 		k := k
-		synctest.Test(t, func(t *testing.T) {
-			inj := &fault.Injector{}
+		var inj *fault.Injector
+		bubble := func(f func(t *testing.T)) {
+			// synctest panics (in this goroutine) when the bubble cannot finish. Two cases are
+			// verdicts about the code under test, not harness failures:
+			defer func() {
+				p := recover()
+				if p == nil {
+					return
+				}
+				msg, fired := fmt.Sprint(p), ""
+				if inj != nil {
+					fired = inj.Fired
+				}
+				switch {
+				case strings.Contains(msg, "main bubble goroutine has exited but blocked goroutines remain"):
+					// the operation returned, but goroutines it started stay blocked for ever
+					// (a leak; no statement is about goroutines): counted, not judged
+					res.FaultLeaks++
+				case strings.Contains(msg, "all goroutines in bubble are blocked"):
+					// the operation never returns: it can neither succeed nor "fail without trace"
+					res.FaultRuns++
+					res.FaultSites[fired]++
+					res.Diffs = append(res.Diffs, Diff{Class: "notrace", Where: fmt.Sprintf("fault@%d(%s): %s never returns (every goroutine of the operation is blocked)", k, fired, j.Op.Short()), Model: "returns an error", Impl: "deadlock"})
+					res.Classes = append(res.Classes, "hang:"+siteKind(fired))
+				default:
+					panic(p)
+				}
+			}()
+			synctest.Test(t, f)
+		}
+		bubble(func(t *testing.T) {
+			inj = &fault.Injector{}
 			w := world.New(world.Config{Stack: j.Stack,
 				WrapDB: func(db database.Database) database.Database { return &fault.DB{Inner: db, Inj: inj} },
 				WrapPartStore: func(name string, ps partstore.PartStore) partstore.PartStore {
@@ -597,6 +628,7 @@ type Search struct {
 	DepthDone           map[string]int
 	FaultRuns           int
 	FaultFailed         int
+	FaultLeaks          int
 	FaultSites          map[string]int
 }
 
@@ -705,31 +737,47 @@ func (s *Search) Explore() {
 			}
 			var next []state
 			cut := false
-			pool.Map(jobs, func(i int, raw json.RawMessage, err error) {
-				s.Transitions++
-				rf := refs[i]
-				if err != nil {
-					s.harnessError(stack, rf.st, &rf.op, err.Error())
-					return
+			// the level is processed in chunks so that the deadline is honoured inside a large level
+			const chunk = 4096
+			partial := false
+			for base := 0; base < len(jobs); base += chunk {
+				if base > 0 && s.Run.Expired() {
+					partial = true
+					s.Run.Exhaustive = false
+					s.Run.Note("stack %s: deadline reached inside depth %d after %d of %d transitions (depth %d is complete)", stack, depth, base, len(jobs), depth-1)
+					break
 				}
-				var r stepResult
-				if err := json.Unmarshal(raw, &r); err != nil {
-					s.harnessError(stack, rf.st, &rf.op, err.Error())
-					return
-				}
-				if r.Trace != "" {
-					s.harnessError(stack, rf.st, &rf.op, r.Trace)
-					return
-				}
-				if !s.judge(stack, rf.st, rf.op, r) {
-					return
-				}
-				if !seen[r.Key] {
-					seen[r.Key] = true
-					s.States++
-					next = append(next, state{Path: append(append([]Op{}, rf.st.Path...), rf.op), Hints: append(append([]Res{}, rf.st.Hints...), r.Res)})
-				}
-			})
+				end := min(base+chunk, len(jobs))
+				base := base
+				pool.Map(jobs[base:end], func(i int, raw json.RawMessage, err error) {
+					s.Transitions++
+					rf := refs[base+i]
+					if err != nil {
+						s.harnessError(stack, rf.st, &rf.op, err.Error())
+						return
+					}
+					var r stepResult
+					if err := json.Unmarshal(raw, &r); err != nil {
+						s.harnessError(stack, rf.st, &rf.op, err.Error())
+						return
+					}
+					if r.Trace != "" {
+						s.harnessError(stack, rf.st, &rf.op, r.Trace)
+						return
+					}
+					if !s.judge(stack, rf.st, rf.op, r) {
+						return
+					}
+					if !seen[r.Key] {
+						seen[r.Key] = true
+						s.States++
+						next = append(next, state{Path: append(append([]Op{}, rf.st.Path...), rf.op), Hints: append(append([]Res{}, rf.st.Hints...), r.Res)})
+					}
+				})
+			}
+			if partial {
+				break
+			}
 			s.DepthDone[stack] = depth
 			// deterministic order of the next frontier (completion order varies)
 			sort.Slice(next, func(a, b int) bool { return PathString(next[a].Path) < PathString(next[b].Path) })
@@ -769,6 +817,7 @@ func (s *Search) judge(stack string, st state, op Op, r stepResult) bool {
 	s.Outcomes[out]++
 	s.FaultRuns += r.FaultRuns
 	s.FaultFailed += r.FaultFailed
+	s.FaultLeaks += r.FaultLeaks
 	if s.FaultSites == nil {
 		s.FaultSites = map[string]int{}
 	}
@@ -806,6 +855,9 @@ func (s *Search) Coverage() {
 	if s.FaultRuns > 0 {
 		c["fault_runs"] = s.FaultRuns
 		c["fault_runs_in_which_the_op_failed"] = s.FaultFailed
+		if s.FaultLeaks > 0 {
+			c["fault_runs_after_which_goroutines_of_the_operation_stayed_blocked"] = s.FaultLeaks
+		}
 		c["fault_site_kinds"] = s.FaultSites
 	}
 	if len(s.Unasserted) > 0 {
@@ -842,6 +894,7 @@ func (s *Search) Merge(o *Search) {
 	s.Pruned += o.Pruned
 	s.FaultRuns += o.FaultRuns
 	s.FaultFailed += o.FaultFailed
+	s.FaultLeaks += o.FaultLeaks
 	for k, v := range o.FaultSites {
 		if s.FaultSites == nil {
 			s.FaultSites = map[string]int{}
